@@ -641,7 +641,10 @@ fn extreme_offsets(len: usize) -> Vec<usize> {
 
 pub fn run(rng: &mut Rng, out: &mut Out, thorough: bool) {
     let mut files = Files::new();
-    let nfiles = if thorough { 1000 } else { 150 };
+    // VERIF_PART=trunc: only the truncation family (borrowed by C14's check: "a mapped view of a structure that the
+    // truncation cuts short is refused")
+    let only_trunc = std::env::var("VERIF_PART").map(|v| v == "trunc").unwrap_or(false);
+    let nfiles = if only_trunc { if thorough { 400 } else { 80 } } else if thorough { 1000 } else { 150 };
     for fi in 0..nfiles {
         // 1-5 structures; an empty structure is forced at the end of every third file
         let n = rng.range(1, 5) as usize;
@@ -681,7 +684,7 @@ pub fn run(rng: &mut Rng, out: &mut Out, thorough: bool) {
                 _ => {}
             }
         }
-        files.with_map(&bytes, |m| {
+        if !only_trunc { files.with_map(&bytes, |m| {
             let refused = m.is_err();
             out.case("map", format!("CMap {} {}", nlist(&elements(&bytes)), b(refused)), format!("{{\"elements\":{},\"refused\":{}}}", total, refused), false);
             if let Ok(map) = m {
@@ -706,7 +709,7 @@ pub fn run(rng: &mut Rng, out: &mut Out, thorough: bool) {
                 }
                 emit_views(out, "inner", &map, &bytes, &inner, true);
             }
-        });
+        }); }
 
         // every element-granular truncation
         for cut in 0..total {
@@ -728,7 +731,7 @@ pub fn run(rng: &mut Rng, out: &mut Out, thorough: bool) {
 
     // ---- files no serializer writes: length elements around every bound, viewed at offsets 0..2.
     // Every declared length that does not fit must be refused with Err in every build (finding F12, repaired).
-    let nbad = if thorough { 600 } else { 80 };
+    let nbad = if only_trunc { 0 } else if thorough { 600 } else { 80 };
     for _ in 0..nbad {
         let body = rng.range(0, 6) as usize;
         let total = body + 2;
